@@ -55,8 +55,53 @@ func (vc *VC) heapOf(st *State, c *Component) string {
 		return t
 	}
 	n := fmt.Sprintf("H%d_%s", st.epoch, c.Name)
-	vc.declareNamed(n, c.Sort)
+	if !vc.declared[n] {
+		vc.declareNamed(n, c.Sort)
+		vc.heapTypeInv(c, n, -1)
+	}
 	return n
+}
+
+// heapTypeInv states, for an unconstrained heap array h (entry heap, or the
+// result of a havoc), the facts the Go runtime guarantees for every stored
+// value: integer ranges, slice headers with 0 <= len <= cap, and so on.
+func (vc *VC) heapTypeInv(c *Component, h string, blk int) {
+	var T types.Type = c.T
+	if c.IsArr {
+		switch u := c.T.Underlying().(type) {
+		case *types.Slice:
+			T = u.Elem()
+		case *types.Array:
+			T = u.Elem()
+		}
+	} else if _, isMap := c.T.Underlying().(*types.Map); isMap {
+		return
+	}
+	// only shallow contents (integers, strings, slice headers): invariants of
+	// struct and interface contents are asserted where the value is loaded
+	switch T.Underlying().(type) {
+	case *types.Basic, *types.Slice:
+	default:
+		return
+	}
+	vc.ctr++
+	r := fmt.Sprintf("r!%d", vc.ctr)
+	if c.IsArr {
+		k := fmt.Sprintf("k!%d", vc.ctr)
+		x := "(select (select " + h + " " + r + ") " + k + ")"
+		inv := vc.typeInv(x, T, "")
+		if inv == "true" {
+			return
+		}
+		vc.facts = append(vc.facts, Fact{fmt.Sprintf("(forall ((%s Int) (%s Int)) (! %s :pattern (%s)))", r, k, inv, x), "type invariant of stored values (" + c.Name + ")", blk})
+		return
+	}
+	x := "(select " + h + " " + r + ")"
+	inv := vc.typeInv(x, T, "")
+	if inv == "true" {
+		return
+	}
+	vc.facts = append(vc.facts, Fact{fmt.Sprintf("(forall ((%s Int)) (! %s :pattern (%s)))", r, inv, x), "type invariant of stored values (" + c.Name + ")", blk})
 }
 
 type retInfo struct {
@@ -244,6 +289,9 @@ func (f *Frame) addrOf(v ssa.Value) *Addr {
 	if !ok {
 		panic(unsupported{"address of non-pointer"})
 	}
+	if _, isArr := pt.Elem().Underlying().(*types.Array); isArr {
+		return &Addr{Comp: f.vc.S.arrComp(f.vc.P.arrayTypeOf(v)), Ref: x.T, Typ: pt.Elem()}
+	}
 	return &Addr{Comp: f.vc.S.cellComp(pt.Elem()), Ref: x.T, Typ: pt.Elem()}
 }
 
@@ -332,6 +380,9 @@ func (f *Frame) run(args []*Val, fvs []*Val, st *State, at0 string) {
 	vc := f.vc
 	fn := f.fn
 	f.analyseCFG()
+	if f.top {
+		vc.computeReach(f)
+	}
 	f.entry = st.clone()
 	f.entryAt = at0
 	for i, p := range fn.Params {
@@ -390,6 +441,9 @@ func (f *Frame) run(args []*Val, fvs []*Val, st *State, at0 string) {
 			}
 		}
 		f.at[b] = at
+		if f.top {
+			vc.curBlk = b.Index
+		}
 		f.execBlock(b, at, cur)
 		f.out[b] = cur
 	}
